@@ -1583,6 +1583,9 @@ func dedupKey(value any) string {
 	switch value.(type) {
 	case int, int8, int16, int32, int64, uint, uint8, uint16, uint32, uint64, float32, float64:
 		if n, err := cast.ToFloat64E(value); err == nil {
+			if n == 0 {
+				n = 0 // -0.0 and 0 are the same value
+			}
 			return strconv.FormatFloat(n, 'g', -1, 64)
 		}
 	}
